@@ -65,6 +65,7 @@ def convert_to_csc(
 
 def comp_edges_to_indices(
     comp_edges: pd.DataFrame,
+    num_comps: int = 1,
 ) -> Tuple[int, jnp.ndarray, jnp.ndarray, jnp.ndarray]:
     """Generates sparse matrix indices from the table of node edges.
 
@@ -72,6 +73,8 @@ def comp_edges_to_indices(
 
     Args:
         comp_edges: Dataframe with three columns (sink, source, type).
+        num_comps: The number of compartments. Compartments without any edge (e.g.
+            cells that consist of a single compartment) are nodes as well.
 
     Returns:
         n_nodes: The number of total nodes (including branchpoints).
@@ -81,7 +84,7 @@ def comp_edges_to_indices(
     # Build indices for diagonals.
     sources = np.asarray(comp_edges["source"].to_list())
     sinks = np.asarray(comp_edges["sink"].to_list())
-    n_nodes = np.max(sinks) + 1 if len(sinks) > 0 else 1
+    n_nodes = max(int(np.max(sinks)) + 1 if len(sinks) > 0 else 1, num_comps)
     diagonal_inds = jnp.stack([jnp.arange(n_nodes), jnp.arange(n_nodes)])
 
     # Build indices for off-diagonals.
